@@ -86,4 +86,57 @@ def intoResponse (convertible : List MsgKind) (r : Response) : Except ConvErr Re
 /-- every non-custom kind -/
 def allNonCustom : List MsgKind := [.bank, .staking, .distribution, .stargate, .ibc, .wasm, .gov, .any]
 
+-- ------------------------------------------------------------------------------------------------
+-- builders (`types::ExecutorBuilder`, `builder::instantiate::InstantiateBuilder`) and the admin helpers of `Remote`
+-- ------------------------------------------------------------------------------------------------
+
+/-- what `Remote::executor().with_funds(..)*.<method>(args)?.build()` yields -/
+structure ExecuteMsg where
+  contractAddr : String
+  funds : String
+  body : String
+  deriving DecidableEq, Repr
+
+/-- `ExecutorBuilder::new(addr)` has no funds; every `with_funds` replaces them -/
+def executorFunds (sets : List String) : String := sets.getLast?.getD ""
+
+def executorBuild {ι : Type} (r : Remote ι) (fundSets : List String) (body : String) : ExecuteMsg :=
+  { contractAddr := r.addr, funds := executorFunds fundSets, body := body }
+
+structure InstBuilder where
+  msg : String
+  codeId : Nat
+  admin : Option String := none
+  label : Option String := none
+  funds : String := ""
+  deriving DecidableEq, Repr
+
+inductive Setter | label (s : String) | admin (s : String) | funds (f : String)
+  deriving DecidableEq, Repr
+
+def InstBuilder.set (b : InstBuilder) : Setter → InstBuilder
+  | .label s => { b with label := some s }
+  | .admin s => { b with admin := some s }
+  | .funds f => { b with funds := f }
+
+structure InstantiateMsg where
+  codeId : Nat
+  msg : String
+  admin : Option String
+  label : String
+  funds : String
+  salt : Option String
+  deriving DecidableEq, Repr
+
+def InstBuilder.build (b : InstBuilder) : InstantiateMsg :=
+  { codeId := b.codeId, msg := b.msg, admin := b.admin, label := b.label.getD "", funds := b.funds, salt := none }
+
+def InstBuilder.build2 (b : InstBuilder) (salt : String) : InstantiateMsg := { b.build with salt := some salt }
+
+inductive AdminMsg | update (contractAddr admin : String) | clear (contractAddr : String)
+  deriving DecidableEq, Repr
+
+def Remote.updateAdmin {ι : Type} (r : Remote ι) (a : String) : AdminMsg := .update r.addr a
+def Remote.clearAdmin {ι : Type} (r : Remote ι) : AdminMsg := .clear r.addr
+
 end Sylvia.Runtime
